@@ -931,6 +931,43 @@ pub fn pick_compaction_probe(
     ))
 }
 
+/// Ask the real `CompactionManifest::is_base_level_for_key` of a compaction of `level` on a
+/// synthetic version about `keys`, one after the other on the same manifest (its per-level
+/// pointers only move forward).
+pub fn base_level_seq(
+    options: &crate::DbOptions,
+    levels: &[Vec<FileDump>],
+    level: usize,
+    keys: &[Vec<u8>],
+) -> Result<Vec<bool>, String> {
+    use crate::versioning::file_metadata::FileMetadata;
+    let table_cache = Arc::new(crate::table_cache::TableCache::new(options.clone(), 10));
+    let mut version = crate::versioning::version::Version::new(options.clone(), &table_cache, 0, 0);
+    for (idx, files) in levels.iter().enumerate().take(crate::config::MAX_NUM_LEVELS) {
+        for file in files {
+            let mut meta = FileMetadata::new(file.number);
+            meta.set_file_size(file.size);
+            meta.set_smallest_key(Some(to_internal_key(&file.smallest)?));
+            meta.set_largest_key(Some(to_internal_key(&file.largest)?));
+            version.files[idx].push(Arc::new(meta));
+        }
+    }
+    let mut list = crate::utils::linked_list::LinkedList::new();
+    let node = list.push(version);
+    let mut manifest = crate::compaction::manifest::CompactionManifest::new(options, level);
+    manifest.set_input_version(node);
+    Ok(keys
+        .iter()
+        .map(|key| {
+            manifest.is_base_level_for_key(&crate::key::InternalKey::new(
+                key.clone(),
+                1,
+                crate::Operation::Put,
+            ))
+        })
+        .collect())
+}
+
 /// Run one round of a manual compaction request (`VersionSet::compact_range(level, begin..end)`)
 /// on a synthetic version: the numbers of the selected level and parent files and the largest key
 /// of the last level file (where the request continues), or `None` when nothing overlaps.
